@@ -333,7 +333,7 @@ def replay_failures(obl, out):
                 # the token-flow view of the executor says an assertion is built but not placed; the real expansion shows it in place in every written form
                 out.inconclusive.append("fn=build_eq_body reason=token flow not followed (%s), not reproduced natively: %s" % (dropped[0][2], msg))
             elif tried:
-                out.broken.append("UNCONFIRMED counterexample for " + msg)
+                e3.not_reproduced(out, model, "for " + msg)
             else:
                 out.broken.append("failed obligation could not be turned into a concrete case: " + msg)
         if n >= 6:
@@ -347,16 +347,17 @@ def run(tier):
     eng = mir_engine.Engine()
     obl = e3.Obligations(PID)
     try:
-        check_body(eng, obl, out, "struct")
-        check_body(eng, obl, out, "enum")
+        sp = lambda f, *a, **k: e3.safe_part(out, lambda: f(eng, obl, out, *a, **k))
+        sp(check_body, "struct")
+        sp(check_body, "enum")
         # several fields / variants: every one of them gets its assertion (free atoms restricted to eq + ord to stay small)
-        check_body(eng, obl, out, "struct", 1, 2, keep={"eq", "ord"})
-        check_body(eng, obl, out, "enum", 2, 1, keep={"eq", "ord"})
+        sp(check_body, "struct", 1, 2, keep={"eq", "ord"})
+        sp(check_body, "enum", 2, 1, keep={"eq", "ord"})
         if tier == "thorough":
-            check_body(eng, obl, out, "enum", 2, 2, keep={"eq"})
-            check_body(eng, obl, out, "struct", 1, 3, keep={"ord"})
-        check_helper(eng, obl, out)
-        check_placement(eng, obl, out)
+            sp(check_body, "enum", 2, 2, keep={"eq"})
+            sp(check_body, "struct", 1, 3, keep={"ord"})
+        sp(check_helper)
+        sp(check_placement)
         replay_failures(obl, out)
         if tier == "thorough":
             e3.cross_check_solvers(obl, out)
